@@ -119,7 +119,23 @@ def rule_order(ctx):
         f = ctx.prog.func(q, "ORDER")
         ctx.touch(f)
         ls = [n for n in own_nodes(f.node) if isinstance(n, ast.Call) and norm(n.func) in ("np.lexsort", "numpy.lexsort")]
-        ctx.require(len(ls) == 1, "ORDER", q, "lexsort call not found")
+        if not ls:
+            # two-pass idiom: argsort by pitch, then a *stable* argsort by onset
+            srt = sorted([n for n in own_nodes(f.node) if isinstance(n, ast.Call) and norm(n.func) in ("np.argsort", "numpy.argsort")], key=lambda n: (n.lineno, n.col_offset))
+            ctx.require(len(srt) >= 2, "ORDER", q, "neither lexsort nor a two-pass argsort found")
+            defs = {norm(a.targets[0]): norm(a.value) for a in own_nodes(f.node) if isinstance(a, ast.Assign) and len(a.targets) == 1}
+            def keytxt(c):
+                t = norm(c.args[0]) if c.args else ""
+                return t + " " + " ".join(v for k, v in defs.items() if k in t)
+            last, first = srt[-1], srt[-2]
+            kind = next((k.value.value for k in last.keywords if k.arg == "kind" and isinstance(k.value, ast.Constant)), None)
+            ok2 = "pitch" in keytxt(first) and "onset" in keytxt(last) and kind in ("mergesort", "stable")
+            ctx.check(ok2, "ORDER", f"{f.name}: pitch argsort then stable onset argsort", func=f, node=last, construct=f"lexsort-keys:{f.name}",
+                      msg=f"two-pass ordering: first key `{keytxt(first)[:40]}`, second key `{keytxt(last)[:40]}` with kind={kind!r}; the second (onset) sort "
+                          f"must be stable, otherwise notes sharing an onset come out in arbitrary pitch order and the decoder pairs chord "
+                          f"members with each other's parameters")
+            continue
+        ctx.require(len(ls) == 1, "ORDER", q, "several lexsort calls")
         a = ls[0].args[0]
         ok = False
         detail = norm(a)
